@@ -79,10 +79,13 @@ def crlf : Bytes := [13, 10]
 
 def serLen (tag : UInt8) (n : Nat) : Bytes := tag :: natDigits n ++ crlf
 
+/-- `serializeSimpleString`: CR and LF inside a simple / error string are sent as spaces -/
+def lineSafe (s : Bytes) : Bytes := s.map fun b => if b == 13 || b == 10 then 32 else b
+
 mutual
   def ser : Value → Bytes
-    | .simple s => 43 :: s ++ crlf
-    | .error s => 45 :: s ++ crlf
+    | .simple s => 43 :: lineSafe s ++ crlf
+    | .error s => 45 :: lineSafe s ++ crlf
     | .int i => 58 :: showInt i ++ crlf
     | .bulk b => serLen 36 b.length ++ b ++ crlf
     | .nil => sb "$-1\r\n"
@@ -146,11 +149,11 @@ mutual
     | .error s => .error s
     | .int i => .int i
     | .bulk b => .bulk b
-    | .double t => .simple t
-    | .bool true => .simple (sb "true")
-    | .bool false => .simple (sb "false")
-    | .big t => .simple t
-    | .verbatim f t => .simple (f ++ [58] ++ t)
+    | .double t => .bulk t
+    | .bool true => .int 1
+    | .bool false => .int 0
+    | .big t => .bulk t
+    | .verbatim _ t => .bulk t
     | .blobErr s => .error s
     | .map kvs => .array (downMap kvs)
     | .pairs kvs => .array (flatPairs kvs)
@@ -223,11 +226,10 @@ def splitLine : Bytes → Option (Bytes × Bytes)
       | some (l, rest) => some (a :: l, rest)
       | none => none
 
-/-- `peekBulkLine` + `moveToNextLine`: `n` bytes followed by CR LF.
-    `pos` is the absolute offset: `pos + n + 2` is computed in a Go `int`. -/
+/-- `peekBulkLine` + `moveToNextLine`: `n` bytes followed by CR LF; anything shorter is
+    "not all there yet" -/
 def takeBulk (n : Nat) (inp : Bytes) (pos : Nat) : PR Bytes :=
-  if pos + n + 2 ≥ 2^63 then .crash "peekBulkLine: index out of range (int overflow)"
-  else if n + 2 > inp.length then .invalid
+  if n + 2 > inp.length then .invalid
   else
     let body := inp.take n
     let after := inp.drop n
@@ -235,8 +237,8 @@ def takeBulk (n : Nat) (inp : Bytes) (pos : Nat) : PR Bytes :=
     | 13 :: 10 :: rest => .ok body rest (pos + n + 2)
     | _ => .invalid
 
-/-- allocation limit of `make([]respValue, 0, n)` (16-byte elements, 2^48 maxAlloc) -/
-def makeCrashes (n : Nat) : Bool := n * 16 > 2^48
+/-- (kept for the history of D34: the parser used to allocate by the declared count) -/
+def makeCrashes (_ : Nat) : Bool := false
 
 /-- value kinds Go cannot hash (used as set member / map key → runtime panic) -/
 def Value.unhashable : Value → Bool
@@ -270,7 +272,7 @@ mutual
     | some (line, rest) =>
       let pos' := pos + line.length + 2
       match line with
-      | [] => .crash "getNextValueEx: line[0] on an empty line"
+      | [] => .invalid
       | c :: body =>
         if c == 43 then .ok (.simple body) rest pos'
         else if c == 45 then .ok (.error body) rest pos'
@@ -319,7 +321,7 @@ mutual
                 | .crash s => .crash s
         else if c == 44 then
           -- `strconv.ParseFloat` is not modelled: syntax check only
-          if body.isEmpty then .invalid else .ok (.double body) rest pos'
+          if (parseDecimal body).isSome || isInfNan body then .ok (.double body) rest pos' else .invalid
         else if line == sb "#t" then .ok (.bool true) rest pos'
         else if line == sb "#f" then .ok (.bool false) rest pos'
         else if c == 126 then
@@ -327,7 +329,7 @@ mutual
             match parseDyn fuel rest pos' [] with
             | .ok xs r p =>
               let ys := xs.map normKey
-              if ys.any Value.unhashable then .crash "getNextDynamicSet: unhashable member"
+              if ys.any Value.unhashable then .invalid
               else .ok (.set (ys.foldl (fun acc v => insertSet v acc) [])) r p
             | .invalid => .invalid
             | .crash s => .crash s
@@ -425,7 +427,7 @@ mutual
         match parseValue fuel false inp pos with
         | .ok v r p =>
           let v := normKey v
-          if v.unhashable then .crash "getNextSet: unhashable member"
+          if v.unhashable then .invalid
           else parseNSet fuel n r p (insertSet v acc)
         | .invalid => .invalid
         | .crash s => .crash s
@@ -444,7 +446,7 @@ mutual
           let k := normKey k
           match parseValue fuel false r p with
           | .ok v r' p' =>
-            if k.unhashable then .crash "getNextMap: unhashable key"
+            if k.unhashable then .invalid
             else parseNMap fuel n r' p' (insertMap k v acc)
           | .invalid => .invalid
           | .crash s => .crash s
@@ -473,7 +475,7 @@ mutual
         let k := normKey k
         match parseValue fuel false r p with
         | .ok v r' p' =>
-          if k.unhashable then .crash "getNextDynamicMap: unhashable key"
+          if k.unhashable then .invalid
           else parseDynMap fuel r' p' (insertMap k v acc)
         | .invalid => .invalid
         | .crash s => .crash s
@@ -495,7 +497,7 @@ mutual
           | none => .invalid
           | some n =>
             if n == 0 then .ok (.bulk acc) rest pos'
-            else if n < 0 then .crash "getChunkedString: negative chunk length"
+            else if n < 0 then .invalid
             else match takeBulk n.toNat rest pos' with
               | .ok b r p => parseChunked fuel r p (acc ++ b)
               | .invalid => .invalid
